@@ -79,6 +79,13 @@ type c17Dl struct {
 // the --verify flag (or VerifyAlways) is part of the run: verification is required
 func (d c17Dl) required() bool { return d.Strat == 2 || d.Strat == 5 }
 
+func (d c17Dl) how() string {
+	if d.Kind == "download" || d.Kind == "manager" {
+		return fmt.Sprintf("strategy=%d", d.Strat)
+	}
+	return map[int]string{0: "flags=none", 2: "flags=--verify", 3: "flags=--prov", 5: "flags=--verify+--prov"}[d.Strat]
+}
+
 // the --prov flag of `helm pull` is part of the run
 func (d c17Dl) later() bool { return d.Strat == 3 || d.Strat == 5 }
 
@@ -103,6 +110,8 @@ type c17Case struct {
 	SecA []byte   `json:"sec_a"`
 	SecB []byte   `json:"sec_b"`
 	Sigs []c17Sig `json:"sigs"`
+	// archive path x provenance path in every state (c17_files.go)
+	Files []c17FileCk `json:"files"`
 }
 
 type c17Tab struct {
@@ -141,9 +150,10 @@ type c17DlRes struct {
 }
 
 type c17Obs struct {
-	Res  []c17Res    `json:"res"`
-	Dls  []c17DlRes  `json:"dls"`
-	Sigs []c17SigRes `json:"sigs"`
+	Res   []c17Res     `json:"res"`
+	Dls   []c17DlRes   `json:"dls"`
+	Sigs  []c17SigRes  `json:"sigs"`
+	Files []c17FileRes `json:"files"`
 	// hypotheses of C17_sign_then_verify on the genuine pair: the Plaintext clearsign returns
 	// is byte for byte yaml(metadata) "\n...\n" yaml(sums) rebuilt here from the archive
 	BlockNote string `json:"block_note,omitempty"`
@@ -351,7 +361,7 @@ func c17Build(r *rand.Rand, exhaustive, withCmd bool) c17Case {
 	if err != nil {
 		panic(fmt.Sprint("package --sign: ", err))
 	}
-	c := c17Case{Name: filepath.Base(path), RingSigner: k.signerPub, RingOther: k.otherPub, SecA: k.signerSecB, SecB: k.otherSecB, Sigs: c17SigMatrix()}
+	c := c17Case{Name: filepath.Base(path), RingSigner: k.signerPub, RingOther: k.otherPub, SecA: k.signerSecB, SecB: k.otherSecB, Sigs: c17SigMatrix(), Files: c17FileMatrix()}
 	c.Archive, _ = os.ReadFile(path)
 	c.Prov, _ = os.ReadFile(path + ".prov")
 	// the same archive signed by the other key
@@ -407,6 +417,7 @@ func c17Build(r *rand.Rand, exhaustive, withCmd bool) c17Case {
 		"bad-meta":        "name: [unclosed\n...\n" + sums(c.Name, realSum),
 		"sums-not-map":    string(meta) + "\n...\nfiles: 7\n",
 		"path-name":       string(meta) + "\n...\n" + sums("sub/dir/"+c.Name, realSum),
+		"empty-digest":    string(meta) + "\n...\n" + sums(c.Name, "\"sha256:\""), // no digest at all: what an unreadable archive "hashed" to before fda75d8
 	} {
 		var buf bytes.Buffer
 		w, err := clearsign.Encode(&buf, k.signer.PrivateKey, &packet.Config{DefaultHash: crypto.SHA512})
@@ -422,7 +433,7 @@ func c17Build(r *rand.Rand, exhaustive, withCmd bool) c17Case {
 
 	add := func(m c17Mut) { c.Muts = append(c.Muts, m) }
 	for _, key := range []string{"three-real-evil", "three-evil-real", "prefix-hash", "upper-hash", "bare-hash", "one-part", "other-name",
-		"two-names", "bad-meta", "sums-not-map", "path-name"} {
+		"two-names", "bad-meta", "sums-not-map", "path-name", "empty-digest"} {
 		for v := 0; v < 2; v++ {
 			e := "reject"
 			if (key == "three-real-evil" || key == "two-names") && v == 0 || key == "three-evil-real" && v == 1 {
@@ -876,6 +887,7 @@ func (p *c17) Execute(ci any) any {
 		obs.Dls = append(obs.Dls, c17RunDl(&c, d, filepath.Join(work, fmt.Sprintf("d%d", i)), rings))
 	}
 	obs.Sigs = c17RunSigs(&c, work)
+	obs.Files = c17RunFiles(&c, work, rings)
 	obs.BlockNote = c17CheckBlock(&c)
 	c17Count("mutant_verifications (Signatory.Verify + VerifyChart each)", len(obs.Res))
 	c17Count("strategy_runs (DownloadTo / LocateChart / Pull)", len(obs.Dls))
@@ -1116,7 +1128,7 @@ func (*c17) Oracle(ci, oi any) []hx.Violation {
 			break
 		}
 		r := obs.Dls[i]
-		desc := fmt.Sprintf("%s strategy=%d variant=%s of %s", d.Kind, d.Strat, d.Variant, c.Name)
+		desc := fmt.Sprintf("%s %s variant=%s of %s", d.Kind, d.how(), d.Variant, c.Name)
 		if r.Panic != "" {
 			flag("panic", desc+": panic "+r.Panic)
 			continue
@@ -1139,6 +1151,7 @@ func (*c17) Oracle(ci, oi any) []hx.Violation {
 		}
 	}
 	c17SigOracle(&c, obs.Sigs, flag)
+	c17FileOracle(&c, obs.Files, flag)
 	return vs
 }
 
@@ -1314,7 +1327,20 @@ func (*c17) CoqCase(ci, oi any) string {
 		}
 		signs = append(signs, fmt.Sprintf("mkSign %s %s %s", c17Str(nm), c17Str(tk.hex(sha)), sums))
 	}
-	return fmt.Sprintf("mkCase %s %s %s %s %s %s", c17CoqTab(tk, base, false), hx.CoqList(checks), hx.CoqList(provs), hx.CoqList(dls), hx.CoqList(signs), hx.CoqList(sigs))
+	var files []string
+	for i, f := range c.Files {
+		if i >= len(obs.Files) || obs.Files[i].Skipped {
+			continue
+		}
+		r := &obs.Files[i]
+		tab := "None"
+		if f.Prov == "file" && !c17SameTab(&r.Res.Tab, base) {
+			tab = "Some " + c17CoqTab(tk, &r.Res.Tab, !r.Res.SigOK)
+		}
+		files = append(files, hx.CoqPair(tab, c17CoqFile(tk, f, r)))
+	}
+	return fmt.Sprintf("mkCase %s %s %s %s %s %s %s", c17CoqTab(tk, base, false), hx.CoqList(checks), hx.CoqList(provs), hx.CoqList(dls), hx.CoqList(signs),
+		hx.CoqList(sigs), hx.CoqList(files))
 }
 
 func (*c17) Class(ci, oi any) string {
